@@ -24,7 +24,7 @@ Definition plan := list seg.
 Definition la_syms (la : look) : list sym * stail :=
   match la with LAny => ([], TAny) | LEnd => ([], TEnd) | LSet F => ([SyS F], TAny) end.
 
-Definition run_item (abs : bool) (i : re) (sh : list sym) (la : look) : res sst :=
+Definition run_item (abs : org) (i : re) (sh : list sym) (la : look) : res sst :=
   let ls := fst (la_syms la) in
   sm sst (S (length sh + length ls)) i (mkS 0 abs (sh ++ ls) (snd (la_syms la)) []) s_accept.
 
@@ -35,19 +35,22 @@ Fixpoint caps_eqb (a b : list (N * (N * N))) : bool :=
   | _, _ => false
   end.
 
-Definition alt_ok (abs : bool) (i : re) (a : alt) : bool :=
+Definition alt_ok (abs : org) (i : re) (a : alt) : bool :=
   match run_item abs i (a_shape a) (a_la a) with
   | Match s1 => (s_pos s1 =? N.of_nat (length (a_shape a))) && caps_eqb (s_caps s1) (a_caps a)
   | _ => false
   end.
 
-(* the plan follows the RSeq spine of the pattern; only the first item knows its absolute offset (0) *)
-Fixpoint chain_ok (abs : bool) (r : re) (p : plan) {struct p} : bool :=
+(* the plan follows the RSeq spine of the pattern.  Origin of the first item: OAbs = haystack offset 0,
+   ONz = some offset >= 1 (a match attempt after a prefix); later items start at unknown offsets, which
+   are >= 1 when the first item did *)
+Definition next_org (o : org) : org := match o with ONz => ONz | _ => OUnk end.
+Fixpoint chain_ok (abs : org) (r : re) (p : plan) {struct p} : bool :=
   match p with
   | [] => false
   | [sg] => forallb (alt_ok abs r) sg
   | sg :: p' => match r with
-                | RSeq a b => forallb (alt_ok abs a) sg && chain_ok false b p'
+                | RSeq a b => forallb (alt_ok abs a) sg && chain_ok (next_org abs) b p'
                 | _ => false
                 end
   end.
@@ -186,13 +189,13 @@ Definition final_looks : list look :=
    LSet (set_of (fun c => in_posix P_punct c && negb (c =? 95)));
    LSet (set_of (fun c => in_posix P_cntrl c && negb (c =? 9) && negb (c =? 10)))].
 
-Definition try_alt (abs : bool) (i : re) (sh : list sym) (la : look) : list alt :=
+Definition try_alt (abs : org) (i : re) (sh : list sym) (la : look) : list alt :=
   match run_item abs i sh la with
   | Match s1 => if s_pos s1 =? N.of_nat (length sh) then [mkAlt sh la (s_caps s1)] else []
   | _ => []
   end.
 (* an item that does not look beyond its shape needs no lookahead condition *)
-Definition alts_of_shape (abs : bool) (i : re) (las : list look) (sh : list sym) : list alt :=
+Definition alts_of_shape (abs : org) (i : re) (las : list look) (sh : list sym) : list alt :=
   match try_alt abs i sh LAny with
   | [] => flat_map (try_alt abs i sh) las
   | l => l
@@ -205,11 +208,11 @@ Definition first_look (a : alt) : look :=
   end.
 
 (* right to left: (plan of the items, lookaheads the previous item may rely on) *)
-Fixpoint gen (abs : bool) (items : list re) : option (plan * list look) :=
+Fixpoint gen (abs : org) (items : list re) : option (plan * list look) :=
   match items with
   | [] => Some ([], final_looks)
   | i :: rest =>
-      match gen false rest, lang i with
+      match gen (next_org abs) rest, lang i with
       | Some (p, las), Some shapes =>
           let alts := flat_map (alts_of_shape abs i las) shapes in
           Some (alts :: p, dedupe (map first_look alts))
@@ -217,12 +220,17 @@ Fixpoint gen (abs : bool) (items : list re) : option (plan * list look) :=
       end
   end.
 
-Definition gen_plan (r : re) : option plan :=
-  match gen true (spine r) with Some (p, _) => Some p | None => None end.
+Definition gen_plan_at (o : org) (r : re) : option plan :=
+  match gen o (spine r) with Some (p, _) => Some p | None => None end.
+Definition gen_plan (r : re) : option plan := gen_plan_at OAbs r.
 
 Definition row_plan (row : rx_row) : plan :=
   match gen_plan (rx_re row) with Some p => p | None => [] end.
 (* the decidable coverage predicate on the regenerated AST *)
 Definition row_checked (row : rx_row) : bool :=
   let p := row_plan row in
-  chain_ok true (rx_re row) p && forallb (fun sg => match sg with [] => false | _ => true end) p.
+  chain_ok OAbs (rx_re row) p && forallb (fun sg => match sg with [] => false | _ => true end) p.
+
+(* the plan of a match attempt that starts after a non-empty prefix of the slice *)
+Definition row_plan_nz (row : rx_row) : plan :=
+  match gen_plan_at ONz (rx_re row) with Some p => p | None => [] end.
